@@ -226,5 +226,203 @@ theorem ptrepr_remove (s : PathTState) (L : List Route) (id : String) (h : PTRep
       have := filter_ne_length_lt L id x hx hxid
       omega
 
+theorem ptremove_some (s : PathTState) (L : List Route) (id : String) (r : Route)
+    (h : PTRepr T Good s L) (hU : UIds L) (hr : r ∈ L) (hid : r.id = id) :
+    (PathT.remove id s).2 = some r := by
+  have hpairs := tree_remove_pairs s.tree id
+  cases hp : r.path with
+  | dyn p =>
+    have := eremove_some (dynKey T) (entriesOf s.tree) L id r (T.render p) h.tree hU hr
+      (dynKey_dyn T r p hp) hid
+    rw [← hpairs.2] at this
+    rw [PathT.remove_of_some id s r this]
+  | static p =>
+    have hnone : (s.tree.remove id).2 = none := by
+      rw [hpairs.2]
+      apply eremove_none (dynKey T) (entriesOf s.tree) L id h.tree
+      intro y hy hdy e
+      have : y = r := hU y hy r hr (e.trans hid.symm)
+      rw [this, dynKey_static T r p hp] at hdy; exact hdy rfl
+    rw [PathT.remove_of_none id s hnone]
+    exact eremove_some staticOf s.statics L id r p h.statics hU hr (by simp [staticOf, hp]) hid
+
+theorem ptremove_none (s : PathTState) (L : List Route) (id : String) (h : PTRepr T Good s L)
+    (hno : ∀ r ∈ L, r.id ≠ id) : (PathT.remove id s).2 = none := by
+  have hpairs := tree_remove_pairs s.tree id
+  have hnone : (s.tree.remove id).2 = none := by
+    rw [hpairs.2]
+    exact eremove_none (dynKey T) (entriesOf s.tree) L id h.tree (fun x hx _ => hno x hx)
+  rw [PathT.remove_of_none id s hnone]
+  exact eremove_none staticOf s.statics L id h.statics (fun x hx _ => hno x hx)
+
+theorem ptrepr_batch (s : PathTState) (L : List Route) (ids : List String) (h : PTRepr T Good s L) :
+    PTRepr T Good (PathT.batchRemove ids s) (L.filter (fun r => !ids.contains r.id)) := by
+  unfold PathT.batchRemove
+  have hc := contents_retain s.tree (keepIf fun id _ => !ids.contains id)
+  refine ⟨?_, inv_retain _ _ h.inv, ?_, ?_, erepr_batch staticOf _ _ ids h.statics⟩
+  · have hle : (L.filter (fun r => !ids.contains r.id)).length ≤ L.length := List.length_filter_le ..
+    have := h.len
+    simp only; omega
+  · intro e he
+    rw [hc, refRetain_keepIf] at he
+    exact h.dom e (List.mem_filter.mp he).1
+  · have := erepr_batch (dynKey T) _ _ ids h.tree
+    unfold entriesOf at this ⊢
+    rw [hc, refRetain_keepIf_pairs]
+    exact this
+
+variable (hPS : PrefixSound T.engine Good)
+include hPS
+
+theorem pt_find_pairs (s : PathTState) (L : List Route) (h : PTRepr T Good s L) (hay : List Char) :
+    s.tree.find T.engine hay =
+      ((entriesOf s.tree).filter (fun e => T.engine.full T.icPath e.1.1 hay)).map Prod.snd := by
+  rw [find_eq_scan hPS s.tree h.inv h.dom hay]
+  unfold entriesOf
+  rw [List.filter_map, List.map_map]
+  rfl
+
+omit hPS Good in
+theorem pt_pathOk_eq (r : Route) (q : Req) :
+    pathOk T.env r q =
+      ((match dynKey T r with | some k => T.engine.full T.icPath k q.path.toList | none => false) ||
+       (match staticOf r with | some p => p == q.path | none => false)) := by
+  unfold pathOk dynKey dynOf staticOf TEnv.env
+  cases r.path <;> simp
+
+theorem pt_mem_match (s : PathTState) (L : List Route) (h : PTRepr T Good s L) (q : Req) (r : Route) :
+    r ∈ PathT.matchReq T s q ↔ r ∈ L ∧ pathOk T.env r q = true := by
+  unfold PathT.matchReq
+  rw [pt_find_pairs T Good hPS s L h, List.mem_append,
+    mem_entries_match (dynKey T) (entriesOf s.tree) L h.tree (fun k => T.engine.full T.icPath k q.path.toList),
+    mem_entries_match staticOf s.statics L h.statics (fun p => p == q.path), pt_pathOk_eq T]
+  unfold dynKey dynOf staticOf
+  cases r.path <;> simp
+
+theorem pt_nodup_match (s : PathTState) (L : List Route) (h : PTRepr T Good s L) (q : Req) :
+    (PathT.matchReq T s q).Nodup := by
+  unfold PathT.matchReq
+  rw [pt_find_pairs T Good hPS s L h, List.nodup_append]
+  refine ⟨nodup_entries_match (dynKey T) _ L h.tree _, nodup_entries_match staticOf s.statics L h.statics _, ?_⟩
+  intro x hx y hy hxy
+  subst hxy
+  rw [mem_entries_match (dynKey T) (entriesOf s.tree) L h.tree (fun k => T.engine.full T.icPath k q.path.toList)] at hx
+  rw [mem_entries_match staticOf s.statics L h.statics (fun p => p == q.path)] at hy
+  obtain ⟨_, p1, hp1, _⟩ := hx
+  obtain ⟨_, p2, hp2, _⟩ := hy
+  unfold dynKey dynOf at hp1; unfold staticOf at hp2
+  cases hp : x.path <;> simp [hp] at hp1 hp2
+
+omit hPS
+
+/-! ### trace: the routes stored in the converted tree trace are what `find` returns -/
+
+theorem pathTreeTraceL_eq (ts : List (Tree.Trace Route)) : pathTreeTraceL ts = ts.map pathTreeTrace := by
+  induction ts with
+  | nil => simp [pathTreeTraceL]
+  | cons t ts ih => simp [pathTreeTraceL, ih]
+
+theorem pathTreeTrace_mk (rx : List Char) (c : Nat) (m : Bool) (cs : List (Tree.Trace Route))
+    (vs : List Route) :
+    pathTreeTrace (.mk rx c m cs vs) =
+      Trace.mk m true c (.other "regex")
+        (cs.map pathTreeTrace ++
+          (if vs.isEmpty then []
+           else [Trace.mk m true vs.length (.storage (if m then vs else [])) []])) := by
+  rw [pathTreeTrace, pathTreeTraceL_eq]
+
+omit T in
+theorem raw_pathTreeTrace (E : Engine) (t : Item String Route) (hay : List Char) :
+    (pathTreeTrace (t.trace E hay)).rawRoutes = t.find E hay := by
+  induction t using Item.ind with
+  | hE ic =>
+    rw [trace_empty, pathTreeTrace_mk, find_empty]
+    simp [Trace.rawRoutes_mk, TInfo.routes]
+  | hL rx vs =>
+    rw [trace_leaf, pathTreeTrace_mk, find_leaf]
+    cases hm : rx.isMatch E hay <;> cases hv : (vs.map (·.2)).isEmpty <;>
+      simp_all [Trace.rawRoutes_mk, TInfo.routes, rawRoutesOfList_cons]
+  | hN rx cs ih =>
+    rw [trace_node, pathTreeTrace_mk, find_node, findL_eq]
+    cases hm : rx.isMatch E hay
+    · simp [Trace.rawRoutes_mk, TInfo.routes]
+    · simp only [if_true, List.isEmpty_nil, List.append_nil, Trace.rawRoutes_mk, TInfo.routes,
+        List.nil_append, List.map_map]
+      clear hm
+      induction cs with
+      | nil => simp
+      | cons c cs ihc =>
+        simp only [List.map_cons, rawRoutesOfList_cons, List.flatMap_cons, Function.comp]
+        rw [ih c (List.mem_cons_self ..), ihc (fun d hd => ih d (List.mem_cons_of_mem _ hd))]
+
+theorem pt_mem_trace (s : PathTState) (q : Req) (r : Route) :
+    r ∈ rawRoutesOfList (PathT.trace T s q) ↔ r ∈ PathT.matchReq T s q := by
+  unfold PathT.trace PathT.matchReq
+  simp only [rawRoutesOfList_cons, rawRoutesOfList_nil, Trace.rawRoutes_mk, TInfo.routes,
+    List.append_nil, List.nil_append, List.mem_append, raw_pathTreeTrace]
+  constructor
+  · rintro (hr | hr)
+    · exact Or.inl hr
+    · right
+      cases hem : ((s.statics.filter (fun e => e.1.1 == q.path)).map Prod.snd).isEmpty
+      · simp only [hem, Bool.false_eq_true, if_false, rawRoutesOfList_cons, rawRoutesOfList_nil,
+          Trace.rawRoutes_mk, TInfo.routes, List.append_nil] at hr
+        exact hr
+      · simp [hem] at hr
+  · rintro (hr | hr)
+    · exact Or.inl hr
+    · right
+      have hne : ((s.statics.filter (fun e => e.1.1 == q.path)).map Prod.snd).isEmpty = false := by
+        cases hl : (s.statics.filter (fun e => e.1.1 == q.path)).map Prod.snd with
+        | nil => rw [hl] at hr; simp at hr
+        | cons _ _ => rfl
+      simp only [hne, Bool.false_eq_true, if_false, rawRoutesOfList_cons, rawRoutesOfList_nil,
+        Trace.rawRoutes_mk, TInfo.routes, List.append_nil]
+      exact hr
+
+/-- `PathAndQueryMatcher` over the real tree satisfies the layer laws; its `sat` is the path
+trigger of the induced environment; routes may be inserted when their pattern is in C08's domain. -/
+def pathTLaws (hPS : PrefixSound T.engine Good) : MLaws (pathTOps T) where
+  Repr := PTRepr T Good
+  sat := fun _ r q => pathOk T.env r q
+  wf := fun _ => True
+  okIns := PathGood T Good
+  sat_congr := by intros; rfl
+  repr_empty := ⟨by simp [pathTOps, PathT.empty], by simp [pathTOps, PathT.empty, Item.inv],
+    by intro e he; simp [pathTOps, PathT.empty, Item.contents] at he,
+    by simpa [pathTOps, PathT.empty, entriesOf, Item.contents] using erepr_empty (dynKey T),
+    erepr_empty _⟩
+  repr_congr := by
+    intro m L L' h hsub hmem
+    have hm : ∀ x, x ∈ L ↔ x ∈ L' := fun x => ⟨hmem x, fun hx => hsub.subset hx⟩
+    exact ⟨Nat.le_trans hsub.length_le h.len, h.inv, h.dom, erepr_congr _ _ _ _ h.tree hm,
+      erepr_congr _ _ _ _ h.statics hm⟩
+  len_zero := by
+    intro m L h h0
+    have := h.len
+    have h0' : m.count = 0 := h0
+    rw [h0'] at this
+    exact List.eq_nil_of_length_eq_zero (Nat.le_zero.mp this)
+  repr_insert := fun m L r h hU hg => ptrepr_insert T Good m L r h hU hg
+  repr_remove := fun m L id h hU => ptrepr_remove T Good m L id h hU
+  remove_some := fun m L id r h hU hr _ hid => ptremove_some T Good m L id r h hU hr hid
+  remove_none := fun m L id h hno => ptremove_none T Good m L id h hno
+  remove_pos := by
+    intro m L id h hs
+    have hex : ∃ r ∈ L, r.id = id := by
+      apply Classical.byContradiction; intro hne
+      have := ptremove_none T Good m L id h (fun r hr e => hne ⟨r, hr, e⟩)
+      have hs' : (PathT.remove id m).2.isSome = true := hs
+      rw [this] at hs'; simp at hs'
+    obtain ⟨r, hr, _⟩ := hex
+    have := List.length_pos_of_mem hr
+    have := h.len
+    show 0 < m.count
+    omega
+  repr_batch := fun m L ids h => ptrepr_batch T Good m L ids h
+  mem_match := fun m L q r h _ => pt_mem_match T Good hPS m L h q r
+  nodup_match := fun m L q h _ => pt_nodup_match T Good hPS m L h q
+  mem_trace := fun m L q r _ _ => pt_mem_trace T m q r
+
 end
 end Rio.Router
